@@ -1051,7 +1051,7 @@ class USBDataPacketDeserializer(Elaboratable):
                         for i in range(self._max_packet_size):
                             m.d.usb += self.packet[i].eq(active_packet[i]),
 
-                        m.next = "IDLE"
+                    m.next = "IDLE"
 
             # IRRELEVANT -- we've encountered a malformed or non-handshake packet
             with m.State("IRRELEVANT"):
